@@ -116,6 +116,21 @@ _ADDED5 = {
     'C18': '; the thread-pool route (all tasks submitted at once) for <= 3 (4) payloads; TypeError as a fifth captured form; absolute oracle (the function runs once per payload and the result carries its outcome)',
     'C20': '; error reports for failures on lines 1-15 and 98-105',
 }
+# parts added in round 6 (DESIGN.md section 9.2d)
+_ADDED6 = {
+    'C01': '; names that are attributes of dict, as plain and list names',
+    'C02': '; one generated parser object for two parses (6 per-call settings x 9 texts, the first possibly failing), second call against the model; names over groups with composite tails',
+    'C04': '; left recursion after a plain alternative that re-enters the rule',
+    'C05': '; cuts inside included rules; a cut after an abandoned option that cut further on',
+    'C06': '; how action arguments are bound (actions named like builtins, defaults, keyword-only parameters); TypeErrors whose text mentions arguments',
+    'C07': '; one walker object used again after a walk that did not finish',
+    'C08': '; repetition counts too large to compile, inputs beyond the digit limit, comment patterns that take no input (str and Buffer), rounds that take no input after a cut',
+    'C14': '; parameter names beginning with underscores',
+    'C15': '; one reader object (shipped and regenerated parser) for every triple of 5 texts, each with new semantics',
+    'C16': '; every left-call graph of 3 (4) rules; unbounded recursion attributed per cyclic component',
+}
+for _k, _v in _ADDED6.items():
+    _ADDED5[_k] = _ADDED5.get(_k, '') + _v
 for _k, _v in _ADDED5.items():
     _ADDED[_k] = _ADDED.get(_k, '') + _v
 for _k, _v in _ADDED.items():
